@@ -276,8 +276,10 @@ class C13(Prop):
         if impl == "ERR":
             return "the control file is rejected"
         if impl == "PANIC":
-            # since /repo c9b03b8 an unparsable relationship field is left as it is: a panic is always a failure
-            return "Control::wrap_and_sort PANIC"
+            # a field outside C13's quantifier ("!": not a well-formed relationship field) may still make the relations code
+            # panic (an operator that is none of the five: C12's / C07's recorded class); since /repo c9b03b8 an UNPARSABLE
+            # field is left as it is, which the model mirrors (correspondence)
+            return None if bad else "Control::wrap_and_sort PANIC on well-formed relationship fields"
         r = rec_fields(impl)
         t1 = unhex(r["t1"])
         if r.get("t2") != r["t1"]:
